@@ -23,6 +23,8 @@ package fuzz
 
 import (
 	"bytes"
+	"crypto/ed25519"
+	"encoding/binary"
 	"encoding/hex"
 	"fmt"
 	"os"
@@ -30,6 +32,7 @@ import (
 	"testing"
 
 	"github.com/New-JAMneration/JAM-Protocol/internal/blockchain"
+	"github.com/New-JAMneration/JAM-Protocol/internal/extrinsic"
 	"github.com/New-JAMneration/JAM-Protocol/internal/types"
 	"github.com/New-JAMneration/JAM-Protocol/internal/utilities"
 	"github.com/New-JAMneration/JAM-Protocol/internal/utilities/hash"
@@ -52,13 +55,32 @@ func h32(parts ...[]byte) [32]byte {
 
 // ---------------------------------------------------------------- synthetic genesis
 
+func edKey(tag string, i int) ed25519.PrivateKey {
+	seed := h32([]byte("verif-ed-"+tag), []byte{byte(i)})
+	return ed25519.NewKeyFromSeed(seed[:])
+}
+
+// validators: hash-derived Bandersnatch keys (the stand-in needs no secret), real Ed25519 keys
 func verifValidators(tag string) types.ValidatorsData {
 	v := make(types.ValidatorsData, types.ValidatorsCount)
 	for i := range v {
 		v[i].Bandersnatch = types.BandersnatchPublic(h32([]byte("verif-bs-"+tag), []byte{byte(i)}))
-		v[i].Ed25519 = types.Ed25519Public(h32([]byte("verif-ed-"+tag), []byte{byte(i)}))
+		copy(v[i].Ed25519[:], edKey(tag, i).Public().(ed25519.PublicKey))
 	}
 	return v
+}
+
+// edSecret finds the private key of one of the generated validators
+func edSecret(pub types.Ed25519Public) ed25519.PrivateKey {
+	for _, tag := range []string{"a", "b"} {
+		for i := 0; i < types.ValidatorsCount; i++ {
+			k := edKey(tag, i)
+			if bytes.Equal(k.Public().(ed25519.PublicKey), pub[:]) {
+				return k
+			}
+		}
+	}
+	return nil
 }
 
 func ringOf(vs types.ValidatorsData) []byte {
@@ -108,7 +130,139 @@ func genesisState(tau types.TimeSlot) types.State {
 	st.Pi.Cores = make(types.CoresStatistics, types.CoresCount)
 	st.Pi.Services = types.ServicesStatistics{}
 	st.Chi.AlwaysAccum = types.AlwaysAccumulateMap{}
+	// one authorizer, always in every pool (the queues refill the pools with it)
+	for c := range st.Varphi {
+		for i := range st.Varphi[c] {
+			st.Varphi[c][i] = types.AuthorizerHash(verifAuthorizer)
+		}
+		st.Alpha[c] = types.AuthPool{types.AuthorizerHash(verifAuthorizer)}
+	}
+	// recent history knows the genesis header, so that the first block can anchor a report on it
+	st.Beta.History = types.BlocksHistory{{HeaderHash: hh(genesisHeader(tau)), Reported: []types.ReportedWorkPackage{}}}
+	// two services with raw storage and solicited (not yet provided) preimages: their
+	// storage / lookup entries are the node's "unmatched" key-values
+	for _, sid := range verifServices {
+		acc := types.ServiceAccount{
+			ServiceInfo: types.ServiceInfo{CodeHash: types.OpaqueHash(h32([]byte("verif-code"), []byte{byte(sid)})),
+				Balance: 1 << 40, MinItemGas: 10, MinMemoGas: 10, Bytes: 1000, Items: 12},
+			PreimageLookup: types.PreimagesMapEntry{},
+			LookupDict:     types.LookupMetaMapEntry{},
+			StorageDict:    types.Storage{},
+		}
+		for j := 0; j < 3; j++ {
+			acc.StorageDict[string([]byte{'k', byte(sid), byte(j)})] = bytes.Repeat([]byte{byte(sid), byte(j)}, 3+j)
+		}
+		for j := 0; j < verifBlobs; j++ {
+			b := verifBlob(sid, j)
+			acc.LookupDict[types.LookupMetaMapkey{Hash: types.OpaqueHash(h32(b)), Length: types.U32(len(b))}] = types.TimeSlotSet{}
+		}
+		if sid == verifServices[0] {
+			// the first service has code: its accumulate program writes every operand it is given
+			// into its storage (key [i] := item i)
+			code := append([]byte{0}, recorderProgram()...) // E(|metadata| = 0) ++ program
+			ch := types.OpaqueHash(h32(code))
+			acc.ServiceInfo.CodeHash = ch
+			acc.PreimageLookup[ch] = code
+			acc.LookupDict[types.LookupMetaMapkey{Hash: ch, Length: types.U32(len(code))}] = types.TimeSlotSet{0}
+		}
+		st.Delta[sid] = acc
+	}
 	return st
+}
+
+var verifServices = []types.ServiceID{7, 300}
+var verifAuthorizer = h32([]byte("verif-authorizer"))
+
+// ---- a tiny PVM assembler (after harness/accrounds): the recorder accumulate program
+type asm struct {
+	code   []byte
+	starts []int
+	fix    [][3]int // at, insn, label position index
+	labels map[string]int
+	fixl   []string
+}
+
+func (a *asm) ins(b ...byte) { a.starts = append(a.starts, len(a.code)); a.code = append(a.code, b...) }
+func le32(x uint32) []byte   { b := make([]byte, 4); binary.LittleEndian.PutUint32(b, x); return b }
+func le64(x uint64) []byte   { b := make([]byte, 8); binary.LittleEndian.PutUint64(b, x); return b }
+func (a *asm) loadImm64(r byte, x uint64) { a.ins(append([]byte{20, r}, le64(x)...)...) }
+func (a *asm) jump(l string) {
+	at := len(a.code)
+	a.ins(40, 0, 0, 0, 0)
+	a.fix, a.fixl = append(a.fix, [3]int{at + 1, at, 0}), append(a.fixl, l)
+}
+func (a *asm) branchEqImmMinus1(r byte, l string) {
+	at := len(a.code)
+	a.ins(81, 1<<4|r, 0xFF, 0, 0, 0, 0)
+	a.fix, a.fixl = append(a.fix, [3]int{at + 3, at, 0}), append(a.fixl, l)
+}
+
+func recorderProgram() []byte {
+	const buf, key, rw = 0x20000, 0x20400, 4096
+	a := &asm{labels: map[string]int{}}
+	a.labels["refine"] = len(a.code)
+	a.jump("refine") // offset 0 (refine entry) is never used; accumulation starts at 5
+	a.loadImm64(6, 0)
+	a.ins(1) // fallthrough
+	a.labels["loop"] = len(a.code)
+	a.loadImm64(7, buf)
+	a.loadImm64(8, 0)
+	a.loadImm64(9, 512)
+	a.loadImm64(10, 15)
+	a.ins(100, 6<<4|11) // move_reg r11 <- r6
+	a.ins(10, 1)        // ecalli fetch (operand r6)
+	a.branchEqImmMinus1(7, "end")
+	a.ins(100, 7<<4|10)                            // value length
+	a.ins(append([]byte{59, 6}, le32(key)...)...) // store_u8 r6 -> key
+	a.loadImm64(7, key)
+	a.loadImm64(8, 1)
+	a.loadImm64(9, buf)
+	a.ins(10, 4)                                  // ecalli write
+	a.ins(append([]byte{149, 6<<4 | 6}, le32(1)...)...) // add_imm_64 r6 += 1
+	a.jump("loop")
+	a.labels["end"] = len(a.code)
+	a.ins(1)
+	a.loadImm64(8, 0)
+	a.ins(50, 0) // halt: jump_ind r0
+	for i, f := range a.fix {
+		binary.LittleEndian.PutUint32(a.code[f[0]:], uint32(int32(a.labels[a.fixl[i]]-f[1])))
+	}
+	mask := make([]byte, (len(a.code)+7)/8)
+	for _, st := range a.starts {
+		mask[st/8] |= 1 << uint(st%8)
+	}
+	nat := func(x int) []byte {
+		if x < 128 {
+			return []byte{byte(x)}
+		}
+		return []byte{byte(0x80 | x>>8), byte(x)}
+	}
+	inner := append([]byte{0, 1}, nat(len(a.code))...)
+	inner = append(append(inner, a.code...), mask...)
+	le3 := func(x int) []byte { return []byte{byte(x), byte(x >> 8), byte(x >> 16)} }
+	p := append(append(append([]byte{}, le3(0)...), le3(rw)...), 0, 0)
+	p = append(p, le3(4096)...)
+	p = append(p, make([]byte, rw)...)
+	p = append(p, le32(uint32(len(inner)))...)
+	return append(p, inner...)
+}
+
+const verifBlobs = 5
+
+func verifBlob(sid types.ServiceID, j int) []byte {
+	return append([]byte("verif-preimage"), byte(sid), byte(sid>>8), byte(j), byte(j*j))
+}
+
+// solicited reports which of the genesis-solicited blobs are still wanted in the state pkv
+func solicited(pkv types.StateKeyVals, sid types.ServiceID, j int) bool {
+	b := verifBlob(sid, j)
+	key := m.EncodeDelta4Key(sid, types.LookupMetaMapkey{Hash: types.OpaqueHash(h32(b)), Length: types.U32(len(b))})
+	for _, kv := range pkv {
+		if kv.Key == key {
+			return len(kv.Value) == 1 && kv.Value[0] == 0
+		}
+	}
+	return false
 }
 
 func genesisHeader(tau types.TimeSlot) types.Header {
@@ -202,6 +356,8 @@ func ticket(v safroleView, attempt byte, tag byte, good bool) types.TicketEnvelo
 // importable, every other recipe breaks exactly one rule and is otherwise well-formed, so that the
 // STF fails where the name says:
 //   stage 1 (header, nothing written yet): badroot badxthash badtmark badoffmark
+//   (valid: ok, okticket = two tickets, okpreimage = solicited preimages, which moves lookup entries
+//    out of the raw storage key-values and adds preimage entries)
 //   disputes: baddispute      safrole: badslot badslot0 badticket badtproof badtorder
 //   header VRF: badseal badentropy badauthor badepoch      extrinsic: badxtorder badpreimage
 //   assurances: badassur badassuridx       reports: badreport badreportord
@@ -237,6 +393,50 @@ func mkBlock(kind string, parent types.HeaderHash, pkv types.StateKeyVals, slot 
 			}
 			ext.Tickets = types.TicketsExtrinsic{a, b}
 		}
+	case "okreport":
+		// a guarantee for core 0 by the validators assigned to it, anchored on the parent
+		if g, ok := guarantee(&ps, v, parent, pkv, slot); ok {
+			ext.Guarantees = types.GuaranteesExtrinsic{g}
+		}
+	case "okassur":
+		// every validator assures every core that holds a pending report (which makes it available)
+		bits := make(types.Bitfield, types.CoresCount)
+		for c := range ps.Rho {
+			if ps.Rho[c] != nil {
+				bits[c] = 1
+			}
+		}
+		for i := range ps.Kappa {
+			ext.Assurances = append(ext.Assurances, assurance(ps.Kappa, i, parent, bits))
+		}
+	case "okverdict":
+		// a "wonky" verdict (one third positive judgements) on some report hash: needs neither
+		// culprits nor faults, and lands in psi_w
+		vd := types.Verdict{Target: types.WorkReportHash(h32([]byte("verif-target"), []byte{byte(slot), byte(slot >> 8)})),
+			Age: types.U32(ps.Tau) / types.U32(types.EpochLength)}
+		for i := 0; i < types.ValidatorsSuperMajority; i++ {
+			j := types.Judgement{Vote: i < types.ValidatorsCount/3, Index: types.ValidatorIndex(i)}
+			ctx := types.JamInvalid
+			if j.Vote {
+				ctx = types.JamValid
+			}
+			if sk := edSecret(ps.Kappa[i].Ed25519); sk != nil {
+				copy(j.Signature[:], ed25519.Sign(sk, append([]byte(ctx), vd.Target[:]...)))
+			}
+			vd.Votes = append(vd.Votes, j)
+		}
+		ext.Disputes.Verdicts = []types.Verdict{vd}
+	case "okpreimage":
+		// provide one still-solicited blob per service, a different one in different slots
+		for _, sid := range verifServices {
+			for d := 0; d < verifBlobs; d++ {
+				j := (int(slot) + d) % verifBlobs
+				if solicited(pkv, sid, j) {
+					ext.Preimages = append(ext.Preimages, types.Preimage{Requester: sid, Blob: verifBlob(sid, j)})
+					break
+				}
+			}
+		}
 	case "badticket":
 		ext.Tickets = types.TicketsExtrinsic{ticket(v, byte(types.TicketsPerValidator), 1, true)}
 	case "badtproof":
@@ -252,9 +452,20 @@ func mkBlock(kind string, parent types.HeaderHash, pkv types.StateKeyVals, slot 
 	case "badpreimage":
 		ext.Preimages = types.PreimagesExtrinsic{{Requester: 5, Blob: []byte{1, 2, 3}}}
 	case "badassur":
-		ext.Assurances = types.AssurancesExtrinsic{{Anchor: types.HeaderHash{7}, Bitfield: types.Bitfield{0}, ValidatorIndex: 0}}
+		ext.Assurances = types.AssurancesExtrinsic{{Anchor: types.HeaderHash{7}, Bitfield: make(types.Bitfield, types.CoresCount), ValidatorIndex: 0}}
 	case "badassuridx":
-		ext.Assurances = types.AssurancesExtrinsic{{Anchor: parent, Bitfield: types.Bitfield{0}, ValidatorIndex: types.ValidatorIndex(types.ValidatorsCount)}}
+		ext.Assurances = types.AssurancesExtrinsic{{Anchor: parent, Bitfield: make(types.Bitfield, types.CoresCount), ValidatorIndex: types.ValidatorIndex(types.ValidatorsCount)}}
+	case "badassursig":
+		a := assurance(ps.Kappa, 1, parent, make(types.Bitfield, types.CoresCount))
+		a.Signature[5] ^= 1
+		ext.Assurances = types.AssurancesExtrinsic{a}
+	case "badreportsig":
+		if g, ok := guarantee(&ps, v, parent, pkv, slot); ok {
+			g.Signatures[0].Signature[5] ^= 1
+			ext.Guarantees = types.GuaranteesExtrinsic{g}
+		} else {
+			ext.Guarantees = types.GuaranteesExtrinsic{{Report: types.WorkReport{CoreIndex: types.CoreIndex(types.CoresCount)}, Slot: slot}}
+		}
 	case "badreport":
 		ext.Guarantees = types.GuaranteesExtrinsic{{Report: types.WorkReport{CoreIndex: types.CoreIndex(types.CoresCount)}, Slot: slot}}
 	case "badreportord":
@@ -324,6 +535,65 @@ func mkBlock(kind string, parent types.HeaderHash, pkv types.StateKeyVals, slot 
 		hd.Seal[40] ^= 1
 	}
 	return types.Block{Header: hd, Extrinsic: ext}, nil
+}
+
+func assurance(kappa types.ValidatorsData, i int, parent types.HeaderHash, bits types.Bitfield) types.AvailAssurance {
+	a := types.AvailAssurance{Anchor: parent, Bitfield: bits, ValidatorIndex: types.ValidatorIndex(i)}
+	anchor := utilities.OpaqueHashWrapper{Value: types.OpaqueHash(parent)}.Serialize()
+	bf := utilities.ByteSequenceWrapper{Value: types.ByteSequence(bits.ToOctetSlice())}.Serialize()
+	hd := h32(append(anchor, bf...))
+	if sk := edSecret(kappa[i].Ed25519); sk != nil {
+		copy(a.Signature[:], ed25519.Sign(sk, append([]byte(types.JamAvailable), hd[:]...)))
+	}
+	return a
+}
+
+// guarantee builds a work report for core 0 and service verifServices[0], anchored on the parent
+// block, with credentials of the validators that the rotation assigns to core 0 in this slot.
+func guarantee(ps *types.State, v safroleView, parent types.HeaderHash, pkv types.StateKeyVals, slot types.TimeSlot) (types.ReportGuarantee, bool) {
+	var g types.ReportGuarantee
+	if len(ps.Rho) == 0 || ps.Rho[0] != nil || len(ps.Beta.History) == 0 {
+		return g, false
+	}
+	last := ps.Beta.History[len(ps.Beta.History)-1]
+	if last.HeaderHash != parent {
+		return g, false
+	}
+	sid := verifServices[0]
+	tag := []byte{byte(slot), byte(slot >> 8)}
+	r := types.WorkReport{
+		PackageSpec: types.WorkPackageSpec{Hash: types.WorkPackageHash(h32([]byte("verif-wp"), parent[:], tag)), Length: 100,
+			ErasureRoot: types.ErasureRoot(h32([]byte("verif-er"), tag)), ExportsRoot: types.ExportsRoot(h32([]byte("verif-ex"), tag))},
+		Context: types.RefineContext{Anchor: parent, StateRoot: m.MerklizationSerializedState(pkv.DeepCopy()), BeefyRoot: types.BeefyRoot(last.BeefyRoot),
+			LookupAnchor: parent, LookupAnchorSlot: ps.Tau, Prerequisites: []types.OpaqueHash{}},
+		CoreIndex:         0,
+		AuthorizerHash:    types.OpaqueHash(verifAuthorizer),
+		AuthOutput:        types.ByteSequence{},
+		SegmentRootLookup: types.SegmentRootLookup{},
+		Results: []types.WorkResult{{ServiceID: sid, CodeHash: ps.Delta[sid].ServiceInfo.CodeHash, PayloadHash: types.OpaqueHash(h32([]byte("verif-payload"), tag)),
+			AccumulateGas: 100000, Result: types.WorkExecResult{Type: types.WorkExecResultOk, Data: append([]byte("out"), tag...)}}},
+	}
+	g.Report, g.Slot = r, slot
+	enc, err := types.NewEncoder().Encode(&r)
+	if err != nil {
+		return g, false
+	}
+	hd := h32(enc)
+	msg := append([]byte(types.JamGuarantee), hd[:]...)
+	asg := extrinsic.NewGuranatorAssignments(v.eta2, slot, append(types.ValidatorsData{}, v.kappa...))
+	for i, c := range asg.CoreAssignments {
+		if c == 0 && len(g.Signatures) < 3 {
+			sk := edSecret(v.kappa[i].Ed25519)
+			if sk == nil {
+				return g, false
+			}
+			var sig types.ValidatorSignature
+			sig.ValidatorIndex = types.ValidatorIndex(i)
+			copy(sig.Signature[:], ed25519.Sign(sk, msg))
+			g.Signatures = append(g.Signatures, sig)
+		}
+	}
+	return g, len(g.Signatures) >= 2
 }
 
 func isOK(kind string) bool { return len(kind) >= 2 && kind[:2] == "ok" }
@@ -506,7 +776,7 @@ func runOnce(w *world, out *vfd.Out, tab *ids, run string, seq []int, idx []int)
 		var r types.StateRoot
 		var ierr error
 		panicked, msg := vfd.Guard(func() { r, ierr = svc.ImportBlock(w.blocks[x]) })
-		rec := map[string]any{"ev": "Import", "run": run, "i": idx[i], "x": x, "kind": w.ckind[x], "ok": ierr == nil && !panicked, "root": 0, "err": ""}
+		rec := map[string]any{"ev": "Import", "run": run, "i": idx[i], "x": x, "kind": w.ckind[x], "ok": ierr == nil && !panicked, "root": 0, "err": "", "panic": panicked}
 		if panicked {
 			rec["err"] = "GO PANIC: " + msg
 		} else if ierr != nil {
@@ -584,5 +854,39 @@ func TestRun(t *testing.T) {
 			rej = runOnce(w, out, tab, fmt.Sprintf("B%d", k), curSeq, curIdx)
 		}
 		runOnce(w, out, tab, "C", seq, all)
+	}
+}
+
+// development aid
+func TestDebugChain(t *testing.T) {
+	os.Setenv("JAM_FUZZ", "1")
+	types.SetTinyMode()
+	logger.ConfigureLogger("main", logger.LoggerConfig{Enabled: os.Getenv("VF_LOG") != "", Level: "DEBUG"})
+	c := map[string]any{"n": float64(4), "parent": []any{0.0, 1.0, 2.0, 3.0}, "ckind": []any{"okreport", "okassur", "okverdict", "okpreimage"}, "tau0": 0.0, "anc": 0.0, "gap": 0.0, "gapat": 0.0}
+	w, err := build(c)
+	if err != nil {
+		t.Fatal(err)
+	}
+	svc := &FuzzServiceStub{}
+	for x := 0; x <= w.n; x++ {
+		kv, err := svc.GetState(w.hashes[x])
+		if err != nil {
+			t.Fatal(err)
+		}
+		st, un, _ := m.StateKeyValsToState(kv.DeepCopy())
+		nrho := 0
+		for _, r := range st.Rho {
+			if r != nil {
+				nrho++
+			}
+		}
+		nxi := 0
+		for _, q := range st.Xi {
+			nxi += len(q)
+		}
+		if x > 0 {
+			t.Logf("block %d ext: %d guarantees %d assurances", x, len(w.blocks[x].Extrinsic.Guarantees), len(w.blocks[x].Extrinsic.Assurances))
+		}
+		t.Logf("state %d: psi_g=%d nkv=%d rho=%d xi=%d unmatched=%d svcstats=%v theta=%v lastacc=%d bal=%d", x, len(st.Psi.Wonky), len(kv), nrho, nxi, len(un), st.Pi.Services, st.Theta, st.Delta[7].ServiceInfo.LastAccumulationSlot, st.Delta[7].ServiceInfo.Balance)
 	}
 }
